@@ -375,8 +375,27 @@ fn c14_backend<F: Function + MathFunction + Clone>(
             sv.insert(extras[e].index().unwrap(), -777.0 - e as f32);
         }
     }
+    // a variable supplied twice: `insert` documents map semantics (the later
+    // value replaces the earlier one and the earlier one is handed back)
+    let twice = if nvars > 0 && ch(&mut |c| c.choose("supplied_twice", 4)) == 0 {
+        Some(order[ch(&mut |c| c.choose("supplied_twice_which", nvars as u32)) as usize])
+    } else {
+        None
+    };
+    if let Some(k) = twice {
+        sv.insert(c.vars[k].index().unwrap(), -4242.5);
+        rep.count("fault.variable_supplied_twice", 1);
+    }
     for k in &order {
-        sv.insert(c.vars[*k].index().unwrap(), values[*k]);
+        let prev = sv.insert(c.vars[*k].index().unwrap(), values[*k]);
+        rep.checked_oracle += 1;
+        if prev != if twice == Some(*k) { Some(-4242.5) } else { None } {
+            rep.violate(
+                "C14",
+                "shape_vars_insert_previous_value",
+                format!("ShapeVars::insert handed back {prev:?} for variable {k} (supplied twice: {})", twice == Some(*k)),
+            );
+        }
     }
     for e in 0..nextra {
         if e % 2 == 1 {
@@ -1430,6 +1449,12 @@ fn gen_system(ch: &mut Chooser) -> System {
         }
         rows.push(row);
     }
+    // sometimes an equation is listed twice (consistent, rank unchanged)
+    if !rows.is_empty() && ch.odds("duplicate_row", 1, 6) {
+        let k = ch.choose("duplicate_which", rows.len() as u32) as usize;
+        let r = rows[k].clone();
+        rows.push(r);
+    }
     // drawn equation order
     for a in (1..rows.len()).rev() {
         let b = ch.choose("row_shuffle", a as u32 + 1) as usize;
@@ -1492,7 +1517,8 @@ fn gen_system(ch: &mut Chooser) -> System {
         let extra = 1 + ch.choose("unused_free_count", 2) as usize;
         for _ in 0..extra {
             n += 1;
-            free.push(true);
+            // mostly free (must get a value); sometimes fixed (must not)
+            free.push(!ch.odds("unused_is_fixed", 1, 4));
             xstar.push(xscale * if exact { 0.5 } else { ch.float_sym("unused_val", 2.0, 8) });
         }
     }
